@@ -15,16 +15,18 @@ A schedule is recorded as segments ``[task, n_yield_points]`` and can be replaye
 """
 from __future__ import annotations
 
+import _thread
 import random
 import sys
 import threading
 
+from . import locks
 from .common import LIB_ROOT
 
 M64 = (1 << 64) - 1
 
 KIND_CODE = {'L': 1, 'F': 2, 'R': 3, 'Cg': 4, 'Ch': 5, 'Cm': 6, 'Cs': 7, 'Cx': 8, 'O': 9,
-             'D+': 10, 'D-': 11, 'E': 12, 'H': 13}
+             'D+': 10, 'D-': 11, 'E': 12, 'H': 13, 'B': 14}
 HOT = frozenset(('Cm', 'Cs', 'F', 'D+', 'H'))
 _HOTLINES = None
 
@@ -67,8 +69,14 @@ class Scheduler(object):
         self.segments_in = [list(s) for s in self.spec.get('segments', [])]
         self.seg_pos = 0
         self.diverged = False
-        self.sems = [threading.Semaphore(0) for _ in range(ntasks)]
-        self.main_sem = threading.Semaphore(0)
+        # parking places: raw locks used as binary semaphores (never the patched threading.Lock)
+        self.sems = [_thread.allocate_lock() for _ in range(ntasks)]
+        for lk in self.sems:
+            lk.acquire()
+        self.main_sem = _thread.allocate_lock()
+        self.main_sem.acquire()
+        self.blocked = set()
+        self.lock_blocks = 0
         self.runnable = set(range(ntasks))
         self.current = None
         self.points = 0
@@ -105,13 +113,16 @@ class Scheduler(object):
         return g
 
     def _pick_next(self, exclude):
-        cands = sorted(self.runnable - {exclude}) if exclude is not None else sorted(self.runnable)
+        pool = self.runnable - self.blocked
+        if not pool - {exclude}:
+            pool = self.runnable
+        cands = sorted(pool - {exclude}) if exclude is not None else sorted(pool)
         if not cands:
             return exclude if exclude in self.runnable else None
         if self.mode == 'replay':
             while self.seg_pos < len(self.segments_in):
                 t = self.segments_in[self.seg_pos][0]
-                if t in self.runnable and t != exclude:
+                if t in self.runnable and t != exclude and (t not in self.blocked or t in cands):
                     return t
                 if t == exclude and exclude in self.runnable:
                     return t
@@ -177,6 +188,33 @@ class Scheduler(object):
                 self._switch(tid, nxt)
         elif do:
             self.countdown = self._gap()
+
+    def yield_blocked(self, tid):
+        """Called by a task that cannot get a (cooperative) lock: somebody else must run."""
+        self.points += 1
+        self.seg_count += 1
+        self.lock_blocks += 1
+        self.h = ((self.h * 1099511628211) ^ ((tid << 24) ^ (KIND_CODE['B'] << 16))) & M64
+        self.kind_counts['B'] = self.kind_counts.get('B', 0) + 1
+        self.blocked.add(tid)
+        if self.ntasks < 2 or not (self.runnable - self.blocked):
+            self.blocked.discard(tid)
+            raise locks.DeadlockDetected('all live tasks are blocked on locks of the code under test')
+        if self.points > self.max_points:
+            self.capped = True
+            raise locks.DeadlockDetected('step cap reached while waiting for a lock')
+        if self.mode == 'replay' and self.seg_pos < len(self.segments_in) \
+                and self.segments_in[self.seg_pos][0] == tid:
+            self.seg_pos += 1
+        nxt = self._pick_next(tid)
+        if nxt is None or nxt == tid:
+            self.blocked.discard(tid)
+            raise locks.DeadlockDetected('nobody else can run')
+        self._switch(tid, nxt)
+
+    def note_unblock(self):
+        if self.blocked:
+            self.blocked.clear()
 
     def _close_segment(self, tid, end=False):
         self.segments.append([tid, self.seg_count, 1] if end else [tid, self.seg_count])
@@ -248,13 +286,17 @@ class Scheduler(object):
     # ---------------------------------------------------------------- running tasks
     def run(self, bodies):
         """bodies: list of callables body(tid); returns when all have finished."""
+        locks.ACTIVE = self
+        locks.TASK_OF_THREAD.clear()
         if self.ntasks == 1:
             self.current = 0
+            locks.TASK_OF_THREAD[_thread.get_ident()] = 0
             try:
                 bodies[0](0)
             finally:
                 self.remove_trace()
                 self._close_segment(0, end=True)
+                locks.ACTIVE = None
             return
         threads = []
         for tid, body in enumerate(bodies):
@@ -266,11 +308,13 @@ class Scheduler(object):
         self.current = first
         self.sems[first].release()
         self.main_sem.acquire()
+        locks.ACTIVE = None
         for th in threads:
             th.join(30.0)
 
     def _thread_main(self, tid, body):
         self.sems[tid].acquire()
+        locks.TASK_OF_THREAD[_thread.get_ident()] = tid
         try:
             self.install_trace(tid)
             body(tid)
@@ -309,5 +353,6 @@ class Scheduler(object):
             'probe_switch_in_dea3': self.probe_switch_in_dea3,
             'probe_switch_in_miss': self.probe_switch_in_miss,
             'hot_points': self.hot_points, 'probe_switches': self.probe_switches,
+            'lock_blocks': self.lock_blocks,
             'abort_fired': list(self.abort_fired), 'errors': list(self.errors),
         }
